@@ -16,6 +16,22 @@
 (*  histo{names, groups, lines, rows, ngroups}                                   *)
 (*        `rare histogram -e {.}` over `lines` identical lines: rows =           *)
 (*        <<key, count>> of the final table, ngroups = the reported group count  *)
+(*  hist{src, names, workers, batch, probes, evs}                                 *)
+(*        ONE run of a long-lived evaluator over several sources: extractor.New  *)
+(*        with `workers` workers fed the batches of 2.. sources whose line       *)
+(*        numbers restart at 1 (or `rare filter` over several files); evs =      *)
+(*        every view evaluation observed, in the order it was seen:              *)
+(*        [s, line, phase, groups, named, numbered, out, crash, gov] - phase     *)
+(*        "ignore" = evaluated by the ignore set before the extraction (the      *)
+(*        same context, the same match), "extract" = Match.Extracted.  Checked   *)
+(*        with MiniJsonHist!HistClasses: the text of a view is a function of     *)
+(*        the captures of ITS match only, over the whole history                 *)
+(*  mhisto{names, classes, rows, ngroups}                                        *)
+(*        `rare histogram -e {.}` over SEVERAL files: classes = the distinct     *)
+(*        matches [groups, count] of all the files together, rows / ngroups the  *)
+(*        final table - one row per class (MiniJsonHist!AggClass)                *)
+(*  any record with a field `crash`: the real code panicked instead of           *)
+(*        returning a text (recovered by the driver / the process died)          *)
 (*  xv{text, gov, cmp, mem}                                                      *)
 (*        cross-validation of THIS specification: gov = encoding/json accepts    *)
 (*        `text` as one flat object; mem = its members as encoding/json decodes  *)
@@ -25,7 +41,7 @@
 (* `gov` of view/ops records is cross-checked the same way.  The trace spec is   *)
 (* total: every record is consumed; the records the specification cannot         *)
 (* explain are collected in `bad` with a class.                                  *)
-EXTENDS MiniJson, Json, TLC
+EXTENDS MiniJsonHist, Json, TLC
 
 Trace == ndJsonDeserialize("trace.ndjson")
 
@@ -42,6 +58,8 @@ InDomain(r) ==
   CASE r.k = "view"  -> NamesOK(r.names, r.groups) /\ Len(r.groups) >= 1
     [] r.k = "ops"   -> OpsOK(r.ops)
     [] r.k = "histo" -> NamesOK(r.names, r.groups)
+    [] r.k = "mhisto" -> AggDomain(r.names, r.classes)
+    [] r.k = "hist"  -> \A i \in 1..Len(r.evs) : Len(r.evs[i].groups) >= 1 /\ NamesOK(r.names, r.evs[i].groups)
     [] OTHER -> FALSE
 
 ExpOf(r) ==
@@ -51,7 +69,9 @@ ExpOf(r) ==
 
 \* the verdict on one record (p = Parse of its text): "ok" or the class of the disagreement
 Class(r, p, e) ==                \* e = ExpOf(r)
-  IF ~InDomain(r) THEN "ok"
+  IF "crash" \in DOMAIN r THEN "crash"          \* a panic is never acceptable, whatever the input
+  ELSE IF ~InDomain(r) THEN "ok"
+  ELSE IF r.k = "mhisto" THEN AggClass(r.names, r.classes, r.rows, r.ngroups)
   ELSE IF r.k = "histo"
        THEN IF r.ngroups # 1 \/ Len(r.rows) # 1 THEN "histogram:groups"
             ELSE IF r.rows[1][2] # r.lines THEN "histogram:count"
@@ -70,19 +90,44 @@ SpecClass(r, p) ==
   ELSE IF r.k \in {"view", "ops"} THEN (IF p.ok # r.gov THEN "valid" ELSE "ok")
   ELSE "ok"
 
-Src(r) == IF r.k = "histo" THEN "cli-histogram" ELSE IF r.k = "xv" THEN "xv" ELSE r.src
+\* history records: one class per event; outside the domain only a crash counts
+RECURSIVE CrashOnly(_, _)
+CrashOnly(h, i) == IF i > Len(h) THEN <<>> ELSE <<IF h[i].crash THEN "crash" ELSE "ok">> \o CrashOnly(h, i + 1)
+HistCl(r, ps) == IF InDomain(r) THEN HistClassesP(r.names, r.evs, ps) ELSE CrashOnly(r.evs, 1)
+RECURSIVE HistBad(_, _, _, _)
+HistBad(l0, r, cl, i) ==
+  IF i > Len(cl) THEN <<>>
+  ELSE (IF cl[i] = "ok" THEN <<>> ELSE <<[t |-> l0, l |-> l0, src |-> r.src, class |-> cl[i], i |-> i]>>) \o HistBad(l0, r, cl, i + 1)
+HistSpecClass(r, ps) == IF \E i \in 1..Len(ps) : ~r.evs[i].crash /\ ps[i].ok # r.evs[i].gov THEN "valid" ELSE "ok"
+RECURSIVE CountKinds(_, _, _)
+CountKinds(ps, kinds, i) == IF i > Len(ps) THEN 0
+                            ELSE Cardinality({j \in 1..Len(ps[i].mem) : ps[i].mem[j].kind \in kinds}) + CountKinds(ps, kinds, i + 1)
+
+Src(r) == IF r.k \in {"histo", "mhisto"} THEN "cli-histogram" ELSE IF r.k = "xv" THEN "xv" ELSE r.src
 
 TInit == l = 1 /\ bad = <<>> /\ specbad = <<>> /\ stat = [indomain |-> 0, nonutf8 |-> 0, numbers |-> 0, bools |-> 0]
 TNext ==
   /\ l <= Len(Trace)
   /\ l' = l + 1
   /\ \E r \in {Trace[l]} :
-     \E p \in {IF r.k \in {"view", "ops"} THEN Parse(r.out) ELSE IF r.k = "xv" THEN Parse(r.text) ELSE Fail} :   \* evaluated once
-     \E e \in {IF InDomain(r) THEN ExpOf(r) ELSE <<>>} :
-     \E cl \in {Class(r, p, e)} : \E sc \in {SpecClass(r, p)} :
-     /\ bad' = IF cl = "ok" THEN bad ELSE Append(bad, [t |-> l, l |-> l, src |-> Src(r), class |-> cl])
+     IF r.k = "hist" /\ "crash" \notin DOMAIN r
+     THEN \E ps \in {Parses(r.evs)} : \E cl \in {HistCl(r, ps)} :                                   \* evaluated once
+          /\ bad' = bad \o HistBad(l, r, cl, 1)
+          /\ specbad' = IF HistSpecClass(r, ps) = "ok" THEN specbad ELSE Append(specbad, [l |-> l, class |-> "valid"])
+          /\ stat' = IF InDomain(r) /\ "canary" \notin DOMAIN r
+                     THEN [indomain |-> stat.indomain + 1,
+                           nonutf8  |-> stat.nonutf8 + Cardinality({i \in 1..Len(r.evs) : ~IsUtf8(r.evs[i].out)}),
+                           numbers  |-> stat.numbers + CountKinds(ps, {"n"}, 1),
+                           bools    |-> stat.bools + CountKinds(ps, {"t", "f"}, 1)]
+                     ELSE stat
+     ELSE
+     \E p \in {IF "crash" \in DOMAIN r THEN Fail
+               ELSE IF r.k \in {"view", "ops"} THEN Parse(r.out) ELSE IF r.k = "xv" THEN Parse(r.text) ELSE Fail} :   \* evaluated once
+     \E e \in {IF "crash" \notin DOMAIN r /\ r.k # "mhisto" /\ InDomain(r) THEN ExpOf(r) ELSE <<>>} :
+     \E cl \in {Class(r, p, e)} : \E sc \in {IF "crash" \in DOMAIN r THEN "ok" ELSE SpecClass(r, p)} :
+     /\ bad' = IF cl = "ok" THEN bad ELSE Append(bad, [t |-> l, l |-> l, src |-> Src(r), class |-> cl, i |-> 0])
      /\ specbad' = IF sc = "ok" THEN specbad ELSE Append(specbad, [l |-> l, class |-> sc])
-     /\ stat' = IF r.k \in {"view", "ops"} /\ InDomain(r) /\ "canary" \notin DOMAIN r     \* (canary: a deliberately corrupted copy)
+     /\ stat' = IF r.k \in {"view", "ops"} /\ "crash" \notin DOMAIN r /\ InDomain(r) /\ "canary" \notin DOMAIN r     \* (canary: a deliberately corrupted copy)
                 THEN [indomain |-> stat.indomain + 1,
                       nonutf8  |-> stat.nonutf8 + (IF IsUtf8(r.out) THEN 0 ELSE 1),
                       numbers  |-> stat.numbers + Cardinality({i \in 1..Len(p.mem) : p.mem[i].kind = "n"}),
